@@ -1,6 +1,6 @@
 (* C05: trader actions never leave the trader under-margined.  Statements only. *)
 From MP.Model Require Import Prelude U128 SInt Feed Vamm VammOps Token World Engine Runtime.
-From MP.Proofs Require Import Tactics EngineGuards EngineArith CloseFacts MoreFacts OpenRatioFacts.
+From MP.Proofs Require Import Tactics EngineGuards EngineArith CloseFacts MoreFacts OpenRatioFacts MarginTxFacts.
 From MP.Model Require Import Scenario.
 
 (* leverage below 1 or above 1/initial-margin-ratio is rejected *)
@@ -71,4 +71,42 @@ Definition c05_example : bool :=
   | Err _ => false
   end.
 Example C05_nonvacuous : c05_example = true.
+Proof. vm_compute. reflexivity. Qed.
+
+(* END TO END.  A successful WithdrawMargin transaction: the wallet receives exactly the requested amount
+   (minus whatever the caller attached), the stored margin falls by amount + funding owed and stays >= 0,
+   size / notional unchanged, checkpoint moved.  A successful DepositMargin transaction: the stored margin
+   rises by exactly the amount, the wallet falls by exactly the amount (cw20: pulled; native: attached),
+   nothing else of the position changes. *)
+Theorem C05_withdraw_margin_tx : forall f w t v amount funds w',
+  exec_op f w (OEngine t (EWithdrawMargin v amount) funds) = Ok w' ->
+  let p := read_position (w_eng w) v t in
+  pos_wf p -> cpf_wf (w_eng w) v -> 0 < e_dec (ec (w_eng w)) -> 0 <= amount ->
+  t <> A_ENGINE -> t <> A_IFUND -> t <> if_engine (w_if w) ->
+  bal (w_tok w') t = bal (w_tok w) t - funds + amount /\
+  exists p', find_position (w_eng w') v t = Some p' /\
+    p_margin p' = p_margin p - amount - funding_owed w v p /\ 0 <= p_margin p' /\
+    p_size p' = p_size p /\ p_notional p' = p_notional p /\ p_lupf p' = cumulative_premium_fraction (w_eng w) v.
+Proof. exact withdraw_margin_tx. Qed.
+Print Assumptions C05_withdraw_margin_tx.
+Theorem C05_deposit_margin_tx : forall f w t v amount funds w',
+  exec_op f w (OEngine t (EDepositMargin v amount) funds) = Ok w' ->
+  t <> A_ENGINE -> t <> A_IFUND -> t <> if_engine (w_if w) ->
+  exists p, find_position (w_eng w) v t = Some p /\
+    find_position (w_eng w') v t = Some (mkPos (p_dir p) (p_size p) (p_margin p + amount) (p_notional p) (p_lupf p) (p_block p)) /\
+    amount <> 0 /\ bal (w_tok w') t = bal (w_tok w) t - amount.
+Proof. exact deposit_margin_tx. Qed.
+Print Assumptions C05_deposit_margin_tx.
+
+(* non-vacuity: both succeed in the concrete scenario (cw20 and native) *)
+Definition c05_margin_example : bool :=
+  match scenario, scenario_native with
+  | Ok w, Ok wn =>
+      let ok w0 o := match exec_op (-1) w0 o with Ok _ => true | Err _ => false end in
+      ok w (OEngine 21 (EWithdrawMargin 11 1000000) 0) && ok w (OEngine 21 (EDepositMargin 11 1000000) 0) &&
+      ok wn (OEngine 21 (EWithdrawMargin 11 1000000) 0) && ok wn (OEngine 21 (EDepositMargin 11 1000000) 1000000) &&
+      pos_wfb (read_position (w_eng w) 11 21) && wf0b (cumulative_premium_fraction (w_eng w) 11)
+  | _, _ => false
+  end.
+Example C05_margin_nonvacuous : c05_margin_example = true.
 Proof. vm_compute. reflexivity. Qed.
